@@ -11,6 +11,10 @@ Life cycle of one process (driver decides every transition):
 * kill()/terminate(): ALIVE -> signal recorded; EXITED -> silent no-op; CLOSED -> ProcessLookupError.
 * cancelling communicate() does not signal the process.
 * cancelling a spawn that is under way kills the half-started child and waits for its exit.
+* stdout/stderr are real asyncio.StreamReaders fed through a pipe of bounded capacity: a script that has
+  more output than fits (64 KiB kernel pipe + the reader's 128 KiB high-water mark) blocks until someone
+  reads, and a process whose script has reached its end exits only once its output has been written
+  (unless it dies from a signal).  communicate() reads both streams concurrently, as asyncio's does.
 """
 import asyncio
 import errno
@@ -33,8 +37,14 @@ class SimProc:
         self.started_at = None
         self._close_waiters = []
         self._started = None
-        self.stdout = plan.get("stdout", b"")
-        self.stderr = plan.get("stderr", b"")
+        self.out_bytes = plan.get("stdout", b"")  # what the script prints in total
+        self.err_bytes = plan.get("stderr", b"")
+        self.stdout = asyncio.StreamReader(loop=table.loop)
+        self.stderr = asyncio.StreamReader(loop=table.loop)
+        self._pending = None  # [(reader, bytes still to write)], in the order the script writes them
+        self._exit_requested = None
+        self.blocked_on_pipe = False
+        self.sent = {id(self.stdout): b"", id(self.stderr): b""}  # bytes that actually reached the pipes
         # a script that starts a long-running child: SIGKILL to the shell alone leaves it running;
         # only a signal to the whole process group (own session + killpg) takes it down
         self.children_alive = bool(plan.get("children"))
@@ -42,11 +52,9 @@ class SimProc:
 
     # ---- what gwf calls ------------------------------------------------------
     async def communicate(self, input=None):
-        if self.phase != "CLOSED":
-            fut = self.table.loop.create_future()
-            self._close_waiters.append(fut)
-            await fut
-        return self.stdout, self.stderr
+        out, err = await asyncio.gather(self.stdout.read(), self.stderr.read())
+        await self.wait()
+        return out, err
 
     async def wait(self):
         if self.returncode is not None:
@@ -79,6 +87,14 @@ class SimProc:
     def send_signal(self, sig):
         self._signal("KILL" if sig == 9 else "TERM")
 
+    @property
+    def sent_out(self):
+        return self.sent[id(self.stdout)]
+
+    @property
+    def sent_err(self):
+        return self.sent[id(self.stderr)]
+
     # ---- what the driver calls -------------------------------------------------
     @property
     def alive(self):
@@ -91,8 +107,48 @@ class SimProc:
         if self.phase != "CLOSED":
             self._signal(name)
 
+    PIPE_CAPACITY = 65536 + 2 * 65536
+
+    def _write_pending(self):
+        """Write as much of the script's output as the pipes take; True when everything is written."""
+        if self._pending is None:
+            first = [(self.stdout, self.out_bytes), (self.stderr, self.err_bytes)]
+            if self.plan.get("stderr_first"):
+                first.reverse()
+            self._pending = [[r, b] for r, b in first if b]
+        while self._pending:
+            reader, data = self._pending[0]
+            room = self.PIPE_CAPACITY - len(reader._buffer)
+            if room <= 0:
+                if not self.blocked_on_pipe:
+                    self.table.trace.log("blocked_on_pipe", pid=self.pid)
+                self.blocked_on_pipe = True
+                return False
+            reader.feed_data(data[:room])
+            self.sent[id(reader)] += data[:room]
+            self._pending[0][1] = data[room:]
+            if not self._pending[0][1]:
+                self._pending.pop(0)
+        self.blocked_on_pipe = False
+        return True
+
     def do_exit(self, code):
-        assert self.phase == "ALIVE"
+        """The script reaches its end (code >= 0) or the process dies from a signal (code < 0)."""
+        if self.phase != "ALIVE":
+            return
+        self._exit_requested = code
+        self.progress()
+
+    def progress(self):
+        if self.phase != "ALIVE" or self._exit_requested is None:
+            return
+        code = self._exit_requested
+        done = self._write_pending()
+        if code >= 0 and not done:
+            return  # blocked in write(2): the process cannot exit yet
+        self._really_exit(code)
+
+    def _really_exit(self, code):
         if code >= 0 or not self.sigkill:
             # the script ended by itself: it waited for (or reaped) its children
             self.children_alive = self.children_alive and bool(self.plan.get("children_detached"))
@@ -102,10 +158,13 @@ class SimProc:
         self.table.trace.log("proc_exit", pid=self.pid, code=code)
 
     def do_drain(self):
-        assert self.phase == "EXITED"
+        if self.phase != "EXITED":
+            return False
         self.phase = "CLOSED"
         self.closed_at = self.table.loop.time()
         self.table.trace.log("proc_closed", pid=self.pid)
+        self.stdout.feed_eof()
+        self.stderr.feed_eof()
         for fut in self._close_waiters:
             if not fut.done():
                 fut.set_result(None)
@@ -136,6 +195,12 @@ class ProcTable:
 
     def live(self):
         return [p for p in self.procs.values() if p.alive]
+
+    def progress(self):
+        """Processes blocked in a write get another chance after every loop iteration."""
+        for p in self.procs.values():
+            if p.phase == "ALIVE" and p._exit_requested is not None:
+                p.progress()
 
     def live_not_doomed(self):
         return [p for p in self.procs.values() if p.alive and not p.sigkill]
